@@ -12,7 +12,7 @@ VECV = r'(const )?(std::vector<' + UPV + r'(, std::allocator<' + UPV + r'>)?>|va
 VECV_IT = r'(const )?(__gnu_cxx::__normal_iterator<(const )?' + UPV + r' \*, ' + VECV + r'>|' + VECV + r'::(const_)?iterator)'
 SPSEQ = r'(const )?std::(shared_ptr<' + VECV + r'>|__shared_ptr<' + VECV + r'.*>|__shared_ptr_access<' + VECV + r'.*>)'
 COMMON = {
-    'types': {UPV: 'mvalue *', VECV: 'pvvec', VECV_IT: 'mvalue *const *', SPSEQ: 'pvvec *', r'(zw_)?value': 'mvalue', r'selector::sel_t': 'unsigned int'},
+    'types': {r'value_type': 'unsigned char', UPV: 'mvalue *', VECV: 'pvvec', VECV_IT: 'mvalue *const *', SPSEQ: 'pvvec *', r'(zw_)?value': 'mvalue', r'selector::sel_t': 'unsigned int'},
     'types_are_records': {VECV: True, r'(zw_)?value': True},
     'record_ctypes': ['pvvec', 'mvalue'],
     'record_default': {'pvvec': 'pvvec_new()'},
@@ -21,7 +21,8 @@ COMMON = {
     'extern': {UPV + r'::operator(->|\*)': {'c': 'PTR_ID', 'by_value': True},
                r'std::__shared_ptr_access<.*>::operator(->|\*)': {'c': 'PTR_ID', 'by_value': True},
                r'std::move': 'VERIF_MOVE', r'std::make_shared': 'seq_new',
-               VECV + r'::(push_back|emplace_back)': 'pvvec_push_back', VECV + r'::begin': 'PVV_BEGIN', VECV + r'::end': 'PVV_END',
+               VECV + r'::(push_back|emplace_back)': 'pvvec_push_back', VECV + r'::reserve': 'PVV_RESERVE', VECV + r'::size': 'PVV_SIZE',
+               r'(zw_)?value::get_type': {'c': 'MVAL_TYPE', 'by_value': True}, r'value_type::code': {'c': 'VT_CODE', 'by_value': True}, VECV + r'::begin': 'PVV_BEGIN', VECV + r'::end': 'PVV_END',
                r'__gnu_cxx::operator!=.*': {'c': 'IT_NE', 'by_value': True},
                r'__gnu_cxx::__normal_iterator<.*>::operator\*': {'c': 'IT_DEREF', 'by_value': True},
                r'__gnu_cxx::__normal_iterator<.*>::operator\+\+': 'IT_PREINC'},
